@@ -76,6 +76,9 @@ func (u *fieldUse) classify(f *ssa.Function, addr ssa.Value, depth int) (rd, wr 
 			}
 		case *ssa.UnOp:
 			if x.Op == token.MUL {
+				if rs := x.Referrers(); rs == nil || len(*rs) == 0 {
+					continue // dead load (e.g. the array copy of a range loop that only uses the index)
+				}
 				rd = true
 				// a loaded pointer / slice that is then written through
 				if pointerLike(x.Type()) || sliceLike(x.Type()) {
@@ -115,8 +118,8 @@ func (u *fieldUse) classify(f *ssa.Function, addr ssa.Value, depth int) (rd, wr 
 				if ew[i] || (mw != nil && mw[i]) {
 					wr = true
 				}
-				// a callee that only writes (copy destination, Read, FillBytes) does not read; everything else may
-				if !(ew[i] && mw == nil) {
+				// a modelled pure writer (copy destination, ReadFull, FillBytes) does not read; everything else may
+				if !ew[i] {
 					rd = true
 				}
 			}
@@ -315,6 +318,7 @@ func init() {
 		registry[prop] = func(c *Ctx) {
 			prev(c)
 			if p := c.Prog("amd64"); p != nil {
+				c.Clauses = append(c.Clauses, prop+".codec: every field an encoder method reads is assigned by the matching decoder method")
 				c.codecRule(p, prop+".codec", pres...)
 			}
 		}
